@@ -346,6 +346,39 @@ def replay(w):
                 if err[c] > curv * h * h * 2 + 1e-9:
                     return True, 'smooth function of phase off by %.3g on the grid for a cycle of %d samples (bound %.3g)' % (err[c], L, curv * h * h * 2)
         return False, 'ok'
+    if kind == 'phase_align_nu':
+        # cycles given explicitly, each with its own (non-uniform, strictly increasing) phase samples in [0, 2pi): steps of any size
+        from scipy import interpolate as _si
+        phases = [np.array(p_, float) for p_ in w['phases']]
+        gap = 2 if w.get('gaps') else 0
+        ip_parts, cv_parts = [], []
+        for c_, p_ in enumerate(phases):
+            if gap:
+                ip_parts.append(np.full(gap, 1.0))
+                cv_parts.append(np.full(gap, -1))
+            ip_parts.append(p_)
+            cv_parts.append(np.full(len(p_), c_))
+        ip = np.concatenate(ip_parts)
+        cv = np.concatenate(cv_parts).astype(int)
+        a, b = w['a'], w['b']
+        x = a * ip + b if w['fn'] == 'linear' else np.cos(ip)
+        kind_ = w.get('interp', 'linear')
+        try:
+            avg, bins = EC.phase_align(ip, x, cycles=cv, npoints=w['npoints'], interp_kind=kind_)
+        except Exception as ex:
+            return True, 'phase_align raised %s: %s (explicit cycles with %s samples)' % (type(ex).__name__, ex, [len(p_) for p_ in phases])
+        if avg.shape != (w['npoints'], len(phases)):
+            return True, 'phase_align output shape %s, expected (%d, %d)' % (avg.shape, w['npoints'], len(phases))
+        for c_, p_ in enumerate(phases):
+            xs = x[cv == c_]
+            own = _si.interp1d(p_, xs, kind=kind_, bounds_error=False, fill_value='extrapolate')(bins)
+            if not np.allclose(avg[:, c_], own, rtol=1e-9, atol=1e-9):
+                return True, 'cycle %d (%d samples, largest phase step %.2f rad): aligned values differ from the %s interpolant of the cycle\'s own (phase, value) samples by %.3g' % (
+                    c_, len(p_), float(np.diff(p_).max()), kind_, float(np.abs(avg[:, c_] - own).max()))
+            if w['fn'] == 'linear' and kind_ == 'linear' and not np.allclose(avg[:, c_], a * bins + b, rtol=1e-9, atol=1e-9 * (1 + abs(a) + abs(b))):
+                return True, 'cycle %d (%d samples, largest phase step %.2f rad): a quantity linear in phase is not reproduced on the phase grid (max error %.3g)' % (
+                    c_, len(p_), float(np.diff(p_).max()), float(np.abs(avg[:, c_] - (a * bins + b)).max()))
+        return False, 'ok'
     if kind == 'bin_by_phase':
         ip = np.array(w['ip'], float)
         x = np.array(w['x'], float)
@@ -428,6 +461,33 @@ def refute(tier, seed, emit):
                 ok, msg = replay(w)
                 if ok:
                     emit.violation('phase-align-' + ('exact-for-linear' if fn == 'linear' else 'within-interpolation-error') if 'raised' not in msg else 'phase-align-raises', w, msg)
+        if emit.full:
+            return
+    # short / strongly non-sinusoidal cycles: few samples, non-uniform phase steps (also larger than pi), cycles passed explicitly
+    n_nu = 40 if tier == 'quick' else 1500
+    emit.scope('phase_align on explicitly labelled cycles of 4..12 samples with non-uniform strictly increasing phases in [0, 2pi) (single steps up to > pi), with and without unlabelled gaps, x npoints {3, 12, 48} x {linear, cubic} interpolation x {linear in phase, cos(phase)}: every column equals the interpolant of that cycle\'s own samples; linear quantities exact (%d seeded phase sets)' % n_nu)
+    for k in range(n_nu):
+        ncy = int(r.randint(1, 4))
+        phases = []
+        for _ in range(ncy):
+            L = int(r.randint(4, 13))
+            p_ = np.sort(r.uniform(0.05, 2 * np.pi - 0.05, size=L))
+            if k % 2 == 0:      # force one step larger than pi
+                cut_ = int(r.randint(1, L))
+                p_ = np.r_[np.sort(r.uniform(0.05, 1.3, size=cut_)), np.sort(r.uniform(1.3 + np.pi + 0.2, 2 * np.pi - 0.05, size=L - cut_))]
+            if np.diff(p_).min() < 1e-3:
+                p_ = p_ + np.arange(L) * 1e-3
+                p_ = p_[p_ < 2 * np.pi]
+            phases.append([float(v) for v in p_])
+        if any(len(p_) < 4 for p_ in phases):
+            continue
+        for npnt in (3, 12, 48):
+            for fn, a, b, ik in (('linear', 2.0, 1.0, 'linear'), ('cos', 0, 0, 'linear'), ('cos', 0, 0, 'cubic')):
+                emit.case(('panu', k, npnt, fn, ik), contract='phase_align')
+                w = {'kind': 'phase_align_nu', 'phases': phases, 'gaps': bool(k % 3 == 0), 'npoints': npnt, 'fn': fn, 'a': a, 'b': b, 'interp': ik}
+                ok, msg = replay(w)
+                if ok:
+                    emit.violation('phase-align-uses-each-cycles-own-phase-samples' if 'raised' not in msg else 'phase-align-raises', w, msg)
         if emit.full:
             return
     # phase binning
